@@ -28,7 +28,8 @@ def plan(tier):
     base = {"case_time_limit": 180,
             "required_classes": ["add:centres-differ", "add:direction-differs", "apply:charged-operator",
                                  "conj_trans:charged-then-apply", "add:coeffs-differ", "distance:coeffs-differ",
-                                 "complex-with-real", "mpdm", "post:canonicalised"],
+                                 "complex-with-real", "mpdm", "post:canonicalised", "long-chain",
+                                 "sector:zero-with-signed-labels"],
             "required_counters": {"oracle": 2000}}
     if tier == "quick":
         base.update({"ncases": 320, "min_nontrivial": 120})
@@ -112,8 +113,13 @@ def run_case(ctx):
     if rng.random() < 0.05:
         gm = gen.long_chain(rng, 10, 10)
         ctx.cls("long-chain")
+    if rng.random() < 0.06:
+        gm = gen.signed_spin_chain(rng, nsite=(3, 7))
     model = states.model_of(gm)
     qntot = states.pick_sector(rng, gm)
+    if gm.desc.get("signed") and gen.zero_sector(gm) is not None:
+        qntot = gen.zero_sector(gm)
+        ctx.cls("sector:zero-with-signed-labels")
     ctx.cls("qn-" + gm.desc["qn_mode"])
     pool = []
     full_trace = []
